@@ -27,6 +27,7 @@ int main(int argc, char** argv)
 	runConfig<VecAdapter<Vec<TM>>>(c, rng, "v0_tm", "", b);
 	runConfig<VecAdapter<VecIC<5, TM>>>(c, rng, "v5_tm", "", b);
 	runConfig<VecAdapter<Vec<CO>>>(c, rng, "v0_co", "", b);
+	runConfig<VecAdapter<Vec<SW>>>(c, rng, "v0_sw", "", b);
 #endif
 	return c.finish();
 }
